@@ -49,8 +49,21 @@ first_missed = {  # seeds the checks missed (or reported without a concrete inpu
  'C06-11': 'MISSED by C06 as it stood (the developer address was always a valid account); developer address forms (incl. strings that fail validation) as a dimension, monitor judges against the configured developer, detected since',
  'C10-11': 'MISSED by C10 as it stood (only base->updatable migrations were in the histories); each variant\'s own migrate, repeated, with the recorded version modelled, detected since',
  'C20-11': 'MISSED by C20 as it stood (no migration from an end state); end-state life stages before migration, detected since',
+ # seventh round
+ 'C03-13': 'MISSED by C03 as it stood (whitelist admin operations were only sent by the admin); every admin operation also sent by non-admins, ledger follows only the admin, detected since',
+ 'C04-13': 'MISSED by C04 as it stood; member messages of 99/100/101/150 entries with tracked buyers at the pagination boundary, detected since',
+ 'C04-14': 'MISSED by C04 as it stood (C08 probes this at the factory); creation-time attach at six instants of the whitelist window, created-with-active-whitelist monitor, detected since',
+ 'C06-13': 'MISSED by C06 as it stood; governance changes between creation and the probed call as a call-site dimension, fee-stranded monitor, detected since',
+ 'C12-14': 'MISSED by C12 as it stood (every world had members); member population as a dimension, detected since',
+ 'C16-13': 'MISSED by C16 as it stood; collection-whitelist admin operations between claims, detected since',
+ 'C16-14': 'MISSED by C16 as it stood; malformed spellings of a listed key as list entries, accepted-malformed-address monitor, detected since',
+ 'C17-13': 'MISSED by C17 as it stood; factory freeze / unfreeze between deposits, detected since',
+ 'C17-14': 'reported by C17 as it stood only in the no-failing-input-found form; sub-second start-time updates and a ledger start time, concrete replay since',
+ 'C18-13': 'the C18 harness aborted on the failing Params query (no verdict line); check now reports a harness abort as a violation and failing factory queries are a monitor violation, concrete replay since',
+ 'C19-14': 'MISSED by C19 as it stood; chain clock before / at / after genesis as a dimension of the creation probes, detected since',
+ 'C20-14': 'MISSED by C20 as it stood (the grid always rewrote the cw2 record); as-instantiated and keep-name rows, instantiate-recorded-foreign-identity monitor, detected since',
 }
-for d in sorted(glob.glob(root + '/C*-[3-9]')) + sorted(glob.glob(root + '/C*-1[012]')):
+for d in sorted(glob.glob(root + '/C*-[3-9]')) + sorted(glob.glob(root + '/C*-1[01234]')):
     sid = os.path.basename(d); prop = sid.split('-')[0]
     readme = open(d + '/README.md').read()
     title = readme.splitlines()[0].lstrip('# ').strip()
